@@ -23,11 +23,11 @@ func scenarios(tier string) []engine.Scenario {
 	t := tinyPrimes(6) // 97 193 257 353 449 577
 
 	// ---- whole-integer exhaustion on tiny chains ------------------------------------------------
-	divChains := [][]uint64{{t[0], t[1], t[2]}, {t[0], t[1]}, {t[1], t[2]}, {t[2], t[0]}}
+	// every integer of [0,Q): the three rotations of 97·193·257 (each prime once as the divisor) and 2-prime chains
+	divChains := [][]uint64{{t[0], t[1], t[2]}, {t[1], t[2], t[0]}, {t[2], t[0], t[1]}, {t[0], t[1]}, {t[1], t[2]}, {t[2], t[0]}}
 	if thorough {
 		divChains = append(divChains,
-			[]uint64{t[0], t[2], t[1]}, []uint64{t[1], t[0], t[2]}, []uint64{t[1], t[2], t[0]},
-			[]uint64{t[2], t[0], t[1]}, []uint64{t[2], t[1], t[0]},
+			[]uint64{t[0], t[2], t[1]}, []uint64{t[1], t[0], t[2]}, []uint64{t[2], t[1], t[0]},
 			[]uint64{t[2], t[3], t[4]}, []uint64{t[5], t[0], t[3]})
 	}
 	for _, mod := range divChains {
@@ -70,13 +70,17 @@ func scenarios(tier string) []engine.Scenario {
 		if thorough {
 			scs = append(scs, beTinyScenario(Q3, P2, o, 2, 1, "kD", 16))
 			scs = append(scs, beTinyScenario(Q3, P2, o, 2, 0, "kD", 16))
-			scs = append(scs, beTinyScenario(Q3, P1, o, 2, 0, "all", 64)) // every value mod 97·193·257·353
+			for shard := 0; shard < 16; shard++ { // every value mod 97·193·257·353 = 1.7e9, one shard per worker
+				scs = append(scs, beTinyShard(Q3, P1, o, 2, 0, "all", 8, shard, 16))
+			}
 		}
 	}
-	scs = append(scs, decomposerTinyScenario(Q3, P2, 8))
-	if thorough {
-		scs = append(scs, decomposerTinyScenario([]uint64{t[2], t[0], t[1]}, []uint64{t[4], t[3]}, 8))
-		scs = append(scs, decomposerTinyScenario(Q3, []uint64{t[3], t[4], t[5]}, 8))
+	for shard := 0; shard < 4; shard++ {
+		scs = append(scs, decomposerTinyScenario(Q3, P2, shard, 4))
+		if thorough {
+			scs = append(scs, decomposerTinyScenario([]uint64{t[2], t[0], t[1]}, []uint64{t[4], t[3]}, shard, 4))
+			scs = append(scs, decomposerTinyScenario(Q3, []uint64{t[3], t[4], t[5]}, shard, 4))
+		}
 	}
 
 	// ---- boundary alphabets on every chain class, every (levelQ, levelP) -------------------------
@@ -87,7 +91,7 @@ func scenarios(tier string) []engine.Scenario {
 		for _, o := range beOps {
 			scs = append(scs, beAlphaScenario(ch, o))
 		}
-		scs = append(scs, extendScenario(ch))
+		scs = append(scs, extendScenario(ch), evaluatorModDownScenario(ch))
 		scs = append(scs, pow2Scenario(ch))
 		for nQ := 1; nQ <= len(ch.Q); nQ++ {
 			for nP := 0; nP <= len(ch.P); nP++ {
@@ -138,7 +142,8 @@ func main() {
 			e := []string{"be-e=zero", "decomposer-tiny=exhaustive", "decomposer-branch=reconstruct", "decomposer-branch=has-copy-only-digit",
 				"decomposer-tail=partial-last-digit", "gadget-class=rns", "gadget-class=base2", "gadget-path=multipleP", "gadget-path=singleP-or-pow2",
 				"pow2-cover=covers", "evaluator-decompose=Evaluator.DecomposeNTT", "evaluator-decompose=Evaluator.DecomposeSingleNTT",
-				"extend-fn=0", "extend-fn=1", "extend-fn=2", "div-nb=0", "div-nb=1", "div-nb=2", "div-nb=3"}
+				"extend-fn=0", "extend-fn=1", "extend-fn=2", "evaluator-moddown=noP", "evaluator-moddown=in=true/out=true", "evaluator-moddown=in=true/out=false",
+				"evaluator-moddown=in=false/out=true", "evaluator-moddown=in=false/out=false", "div-nb=0", "div-nb=1", "div-nb=2", "div-nb=3"}
 			for _, o := range divOps {
 				e = append(e, "div-tiny="+o.name, "div-alpha="+o.name)
 			}
